@@ -241,6 +241,8 @@ class BaseKey(t.Generic[NativePrivateKey, NativePublicKey], metaclass=ABCMeta):
     @classmethod
     def validate_dict_key(cls, data: DictKey) -> None:
         cls.binding.validate_dict_key_registry(data, cls.param_registry)
+        if data["kty"] != cls.key_type:
+            raise ValueError(f'"kty" value must be "{cls.key_type}"')
         cls.binding.validate_dict_key_registry(data, cls.value_registry)
         cls.binding.validate_dict_key_use_operations(data)
 
